@@ -93,9 +93,16 @@ struct Box {
     Teakra::RegisterState& regs() {
         return t->GetRegisterState();
     }
+    // The raw memory pointer is fetched ONCE, when the machine is built, and kept - as an emulator front end does. (Fetching it
+    // anew for every access would tell the library about every raw write and hide any defect that depends on it not knowing.)
     u8* mem() {
+        return raw_mem;
+    }
+    u8* fresh_mem() {
         return t->GetDspMemory();
     }
+    u8* raw_mem = nullptr;
+    bool polling_host = false; // a host that never installs receive / semaphore handlers and only polls
     // program / data word helpers working on the raw array (independent of MemoryInterface)
     void poke_prog(u32 addr, u16 v) {
         mem()[addr * 2] = (u8)v;
